@@ -6,14 +6,20 @@ ScalarFunction contract); the target is tested on fun/s.  The equivalence with t
 follows from commutativity of IEEE multiplication and determinism (hand lemma, listed as assumption).
 """
 from props._mainbased import main_property
+from units import sf_unit
 
 PID = "C17"
 
 
 def check(tier, seed):
+    sf = sf_unit.run_unit(tier)
     return main_property(
         PID, tier, seed, "proof",
-        "scaler obligations at every return + invariant conjuncts (UF domain, z3); equivalence lemma by hand.",
+        "scaler obligations at every return + invariant conjuncts (UF domain, z3); ScalarFunction's value/freshness "
+        "clauses (unit SF: every answer is the user's value times the CURRENT scaling factor, in a fresh array); "
+        "equivalence lemma by hand.",
+        extra_reports=[(sf, lambda r: any(k in r.name for k in ("fresh_value", "result_fresh", "scaling_untouched",
+                                                                 "scaling_is_one")))],
         extra_assumptions=["lemma C17::equivalence (hand argument): identical streams of (f, g) values + determinism "
                            "(C14) give identical runs; checked natively by the bounded stand-in",
                            "premise: no checkpoint together with a scaler; the scaler returns s > 0"],
